@@ -222,8 +222,13 @@ def run_case(case):
                 reg = cls()
                 order_dependent = shape_of(reg) != control
                 inherits = len(control) != len(leaves)
-            elif x_ < 0.5:
+            elif x_ < 0.4:
                 cls = type("AnnReg", (csr.Register,), {"__annotations__": dict(fields)}, access=access)
+                reg = cls()
+            elif x_ < 0.5:
+                # a subclass that declares no fields of its own (only a helper method) has its parent's fields
+                base_ = type("AnnReg", (csr.Register,), {"__annotations__": dict(fields)}, access=access)
+                cls = type("AnnChild", (base_,), {"__doc__": "same fields, one more method", "helper": lambda self: 1})
                 reg = cls()
             else:
                 # access given per instance: the same class is instantiated several times
